@@ -219,3 +219,54 @@ def nucleic(seq, kind="D", chain="N", start=1, hydrogens=False, origin=(0.0, 0.0
                           "xyz": p + np.array(origin) + i * np.array(step), "res_index": i,
                           "element": n[0]})
     return atoms
+
+
+def randomize_sidechains(atoms, rng, seqnames=None):
+    """Rotate, in every residue, the far side of every acyclic side-chain bond (chi angles, including terminal groups)
+    by a random angle.  Bond lengths and angles stay those of the templates; only torsions change."""
+    byres = {}
+    for a in atoms:
+        byres.setdefault(a.get("res_index"), []).append(a)
+    for ri, ats in byres.items():
+        if ri is None:
+            continue
+        tname = (seqnames[ri] if seqnames else ats[0]["resname"])
+        if tname not in definitions().map:
+            continue
+        bd = bonds(tname)
+        present = {a["name"]: a for a in ats}
+        graph = {n: [m for m in bd.get(n, []) if m in present] for n in present}
+        for n in graph:                     # symmetric closure
+            for m in graph[n]:
+                if n not in graph[m]:
+                    graph[m].append(n)
+        if "CA" not in graph:
+            continue
+        depth, order = {"CA": 0}, ["CA"]
+        for n in order:
+            for m in graph[n]:
+                if m not in depth:
+                    depth[m] = depth[n] + 1
+                    order.append(m)
+        for a_ in order:
+            for b_ in graph[a_]:
+                if depth.get(b_, -1) != depth[a_] + 1 or a_ in ("N", "C", "O") or b_ in ("N", "C", "O", "OXT"):
+                    continue
+                # far side of the bond a_-b_
+                far, stack = {b_}, [b_]
+                while stack:
+                    for m in graph[stack.pop()]:
+                        if m not in far and not (m == a_):
+                            far.add(m)
+                            stack.append(m)
+                if far & {"N", "C", "CA"} or len(far) < 2 and not b_.startswith(("O", "N", "S", "C")):
+                    continue
+                # a cycle through a_ shows up as a_'s other neighbours being in far
+                if any(m in far for m in graph[a_] if m != b_):
+                    continue
+                R = _rot_axis(present[b_]["xyz"] - present[a_]["xyz"], rng.uniform(-math.pi, math.pi))
+                o = present[a_]["xyz"]
+                for m in far:
+                    if m != b_:
+                        present[m]["xyz"] = R @ (present[m]["xyz"] - o) + o
+    return atoms
